@@ -8,6 +8,7 @@ EXPLANATION = (
     "nervusdb_query::executor is searched for clock calls. An identity derived from the clock plus a per-statement counter is unique only while the "
     "clock is strictly monotonic across statements and processes, and `duplicate external id` makes node creation fail. Uniqueness of what a "
     "persisted allocator would hand out is not decided."
+    " C32.2: the id map's high-water mark (dense internal ids) and every other engine state begin_write touches is read under the writer mutex."
 )
 
 CREATE = "nervusdb_query::executor::WriteableGraph::create_node"
